@@ -9,10 +9,8 @@ Section Top.
   Variable callsem : val -> list dval -> comp dval.
   Variable awaitsem : val -> comp val.
 
-  (* the abstract user-code semantics never RETURN a generated closure (see RefineChain.v) *)
-  Hypothesis msem_nc : forall m tf r ds, leaves not_clo (msem m tf r ds).
-  Hypothesis dotsem_nc : forall o sn r, leaves not_clo (dotsem o sn r).
-  Hypothesis callsem_nc : forall f ds, leaves not_clo (callsem f ds).
+  (* no hypothesis on the abstract user-code semantics: the theorems hold for EVERY msem / dotsem /
+     callsem / awaitsem *)
 
   Lemma gen_inv cfg inp e : gen cfg inp = Ok e ->
     exists fcp j, jout_new cfg inp fcp = Ok j /\ gen_output j = Ok e /\ j_pats j = map b_pat (i_branches inp).
